@@ -26,7 +26,17 @@ META = dict(
          '(beyond its configured retries), the set of submitted instances '
          'equals the spawn-on-demand closure computed independently from the '
          'graph, and at the end the pool is empty and the real '
-         'Scheduler.check_auto_shutdown grants shutdown.',
+         'Scheduler.check_auto_shutdown grants shutdown. Obligations '
+         'graphs[*]: 8 x 7 generated graphs over tasks a, b, c (and / or '
+         'expressions, optional custom output a:x?, offsets -P1 / -P2 incl. '
+         'self and backward dependence) on three cycle points are run through '
+         'vf.sim.Sim (real pool, events manager, sqlite database, '
+         'Scheduler.release_tasks_to_run) under symbolic x bits and completion '
+         'orders; the instances submitted must equal - each once - a '
+         'reference spawn-on-demand closure computed from the graph\'s own '
+         'syntax tree (an instance is spawned when all its atoms are '
+         'pre-initial or one of them completes, and runs when its expression '
+         'is then true).',
     note='one fixture graph, two cycle points (10-11 instances), every '
          'completion order (6 scheduling choices of 4 alternatives, thorough 8), '
          'x / no-x per instance of a, one execution failure + retry of a@1; '
@@ -217,7 +227,10 @@ def OBLIGATIONS(tier):
                slice={'c1': c1, 'c2': c2, 'alt': alt, 'n': n})
             for c1 in range(alt + 1) for c2 in range(alt + 1)] + [
         Ob(f'run3[c1={c1}]', 'run3', timeout=t, twin=(c1 == 0),
-           slice={'c1': c1, 'n': 8 if big else 6}) for c1 in range(4)]
+           slice={'c1': c1, 'n': 8 if big else 6}) for c1 in range(4)] + [
+        Ob(f'graphs[b<={_expr_text(ATOMS_B[eb])}]', 'graphs', timeout=t,
+           twin=(eb == 0), slice={'eb': eb, 'full': big})
+        for eb in range(len(ATOMS_B))]
 
 
 def VALIDATE():
@@ -228,3 +241,161 @@ def VALIDATE():
     assert _run([0] * 8, False, False, False, CFG3, WANT3, 4)
     assert _run([1, 2, 3, 0, 1, 2, 3, 1], False, False, False, CFG3, WANT3, 4)
     return n + 5
+
+
+# ---------------------------------------------------------------------------
+# generated graphs: the run of each graph of a bounded family against a
+# reference spawn-on-demand closure computed from the graph's own AST
+ATOMS_B = [
+    [('a', 0, 's')],                                  # a => b
+    [('a', 0, 'x')],                                  # a:x? => b
+    [('a', -1, 's')],                                 # a[-P1] => b
+    ['|', ('a', 0, 's'), ('b', -1, 's')],             # a | b[-P1] => b
+    ['&', ('a', 0, 's'), ('b', -1, 's')],             # a & b[-P1] => b
+    ['|', ('a', 0, 'x'), ('a', -1, 's')],             # a:x? | a[-P1] => b
+    [('c', -1, 's')],                                 # c[-P1] => b
+    ['&', ('a', 0, 'x'), ('c', -2, 's')],             # a:x? & c[-P2] => b
+]
+ATOMS_C = [
+    None,
+    [('b', 0, 's')],
+    ['&', ('a', 0, 's'), ('b', 0, 's')],
+    ['|', ('a', 0, 's'), ('b', 0, 's')],
+    ['&', ('b', -1, 's'), ('a', 0, 's')],
+    ['&', ('a', 0, 'x'), ('b', 0, 's')],
+    ['|', ('b', 0, 's'), ('c', -1, 's')],
+]
+NPOINTS = 3
+
+
+def _atoms(expr):
+    return [e for e in expr if isinstance(e, tuple)]
+
+
+def _atom_text(atom):
+    name, off, out = atom
+    s = name + (f'[-P{-off}]' if off else '')
+    return s + (':x?' if out == 'x' else '')
+
+
+def _expr_text(expr):
+    op = expr[0] if isinstance(expr[0], str) else None
+    return f' {op} '.join(_atom_text(a) for a in _atoms(expr))
+
+
+def _value(expr, p, done):
+    vals = [(q := p + a[1]) < 1 or (a[0], q, a[2]) in done
+            for a in _atoms(expr)]
+    if expr[0] == '|':
+        return any(vals)
+    return all(vals)
+
+
+def _reference(eb, ec, xbits):
+    exprs = {'a': None, 'b': ATOMS_B[eb], 'c': ATOMS_C[ec]}
+    runs, done = set(), set()
+    while True:
+        before = len(runs)
+        for p in range(1, NPOINTS + 1):
+            for t, expr in exprs.items():
+                if (t, p) in runs:
+                    continue
+                if t == 'c' and expr is None:
+                    continue              # c is not in the graph
+                if expr is None:
+                    go = True
+                else:
+                    ats = _atoms(expr)
+                    spawned = all(p + a[1] < 1 for a in ats) or any(
+                        p + a[1] >= 1 and (a[0], p + a[1], a[2]) in done
+                        for a in ats)
+                    go = spawned and _value(expr, p, done)
+                if go:
+                    runs.add((t, p))
+                    done.add((t, p, 's'))
+                    if t == 'a' and xbits[p - 1]:
+                        done.add((t, p, 'x'))
+        if len(runs) == before:
+            return runs
+
+
+_GCFG = {}
+
+
+def _gcfg(eb, ec):
+    import os
+    import tempfile
+    from cylc.flow.config import WorkflowConfig
+    from cylc.flow.scheduler_cli import RunOptions
+    key = (eb, ec)
+    if key not in _GCFG:
+        lines = [f'{_expr_text(ATOMS_B[eb])} => b']
+        if ATOMS_C[ec] is not None:
+            lines.append(f'{_expr_text(ATOMS_C[ec])} => c')
+        d = tempfile.mkdtemp(prefix='cylc-verif-c01g-')
+        path = os.path.join(d, 'flow.cylc')
+        with open(path, 'w') as f:
+            f.write(
+                '[scheduler]\n    allow implicit tasks = True\n'
+                '[scheduling]\n    cycling mode = integer\n'
+                '    initial cycle point = 1\n'
+                f'    final cycle point = {NPOINTS}\n'
+                '    [[graph]]\n        P1 = """\n            a\n'
+                + ''.join(f'            {x}\n' for x in lines)
+                + '        """\n[runtime]\n    [[a]]\n'
+                '        [[[outputs]]]\n            x = xx\n')
+        try:
+            _GCFG[key] = WorkflowConfig(f'g{eb}_{ec}', path, RunOptions())
+        finally:
+            import shutil
+            shutil.rmtree(d, ignore_errors=True)
+    return _GCFG[key]
+
+
+def _graph_run(eb, ec, x1, x2, x3, o1, o2, o3):
+    import shutil
+    import tempfile
+    from vf.sim import Sim
+    cfg = _gcfg(eb, ec)
+    xbits = [x1, x2, x3]
+    d = tempfile.mkdtemp(prefix='cylc-verif-c01r-')
+    sim = Sim(cfg, d)
+    try:
+        sim.cold_start()
+        order = iter([o1, o2, o3])
+        for _step in range(40):
+            sim.loop()
+            act = sim.active()
+            if not act:
+                break
+            t = act[next(order, 0) % len(act)]
+            outs = ['xx'] if (t.tdef.name == 'a'
+                              and xbits[int(t.point) - 1]) else []
+            sim.finish(t, outputs=outs)
+        else:
+            return False
+        got = [(s[0], s[1]) for s in sim.submitted]
+        want = _reference(eb, ec, xbits)
+        if len(got) != len(set(got)):
+            return False              # something ran twice
+        return set(got) == want
+    finally:
+        sim.close()
+        shutil.rmtree(d, ignore_errors=True)
+
+
+def graphs(eb: int, ec: int, x1: bool, x2: bool, x3: bool, o1: int, o2: int,
+           o3: int) -> bool:
+    """
+    pre: sl(eb=eb)
+    pre: 0 <= eb < len(ATOMS_B) and 0 <= ec < len(ATOMS_C)
+    pre: 0 <= o1 <= 2 and 0 <= o2 <= 2 and 0 <= o3 <= 2
+    pre: ec != 0 or eb < 6
+    pre: SLICE.get('full', True) or (o3 == 0 and o2 <= 1 and x3 == x1)
+    post: _
+    """
+    eb, ec = fork_int(eb, 0, len(ATOMS_B) - 1), fork_int(ec, 0, len(ATOMS_C) - 1)
+    o1, o2, o3 = fork_int(o1, 0, 2), fork_int(o2, 0, 2), fork_int(o3, 0, 2)
+    x1, x2, x3 = fork_bool(x1), fork_bool(x2), fork_bool(x3)
+    with concrete():
+        return _graph_run(eb, ec, x1, x2, x3, o1, o2, o3)
